@@ -20,8 +20,9 @@ func factsMembership() {
 		known("snapshot_has_addresses", "bool", b(i >= 0 && j > i &&
 			strings.Contains(reg, "group.RegisterProcessSnapshotFn(this.processSnapshot)") && strings.Contains(reg, "group.RegisterSnapshotFn(this.snapshot)") &&
 			strings.Contains(snap, "json.Marshal(this.clusterConn.Nodes())") &&
-			strings.Contains(psnap, "if _, exists := nodes[id]; !exists && id != this.clusterConn.Id() { this.clusterConn.RemoveNode(id) }") &&
-			strings.Contains(psnap, "for id, address := range nodes { this.clusterConn.AddNode(id, address) }")),
+			// the whole restore: unmarshal, drop every known node the snapshot does not list (unconditionally, never oneself), add what it lists
+			strings.HasSuffix(strings.TrimSpace(psnap), "for id, _ := range this.clusterConn.Nodes() { if _, exists := nodes[id]; !exists && id != this.clusterConn.Id() { this.clusterConn.RemoveNode(id) } } for id, address := range nodes { this.clusterConn.AddNode(id, address) } return nil }") &&
+			strings.Count(psnap, "if ") == 2 && strings.Contains(psnap, "if err := json.Unmarshal(data, &nodes); err != nil { return err }")),
 			"the nodes manager registers with the shared zero group before it starts; its snapshot is the address book; restoring replaces the book except the own entry")
 	}
 	// ---- the bootstrap entry carries the node's address
